@@ -1457,6 +1457,27 @@ def deep_pool_histories(rng, tier):
     return cases
 
 
+def rate_text_histories(rng, tier):
+    """commission rates as TEXT through the factory's CreatePair: whole numbers above one (10, 100, 2, 20: must be refused - a
+    rate is at most 1), one itself, and fractions with trailing zeros in their 18-digit form; every created pair must
+    describe exactly the number asked for (C18-agent20: trailing zeros trimmed from the field's text before parsing, so that
+    "10" was read as 1)"""
+    h = Hist(2, 4, 4, 16, 10 ** 12, 1000, [6, 18, 6, 8], "directed-matrix", "commission rates as text: whole numbers, one, padded fractions")
+    owner = h.owner()
+    for d in range(h.nd):
+        h.do(("fac_add_native", owner, d, 6))
+    assets = [("n", d) for d in range(h.nd)] + [("t", 2 + t) for t in range(h.nt)]
+    sets = [(assets[i], assets[j]) for i in range(len(assets)) for j in range(i + 1, len(assets))]
+    rates = [10 * D, 100 * D, 2 * D, 20 * D, 10 ** 6 * D, D, 10 ** 17, 5 * 10 ** 17, 10 ** 16, 3 * 10 ** 16, 10 ** 15, 10 ** 3, 10, 1, 0, D + 10, 11 * D // 10]
+    k = 0
+    for r in rates:
+        a0, a1 = sets[k]
+        ok, _ = h.do(("fac_create_pair", owner, a0, a1, [USER0], 0, 0, r, None))
+        if ok:
+            k += 1
+    return [h.finish()]
+
+
 def lookalike_histories(rng, tier):
     """worlds in which a bank denom is spelled exactly like a cw20 contract address (the model keeps the two kinds apart, as
     AssetInfo equality must): every entry point is offered the look-alike in place of the real asset, with and without
@@ -1635,9 +1656,17 @@ def dust_withdrawal_histories(rng, tier):
         for u in (USER0, USER0 + 1):
             for amt in (1, 2, 1, 3):
                 h.do(("send", lp, u, p, amt, ("hwithdraw",)))
+        # a holder whose WHOLE position is below the 18-digit resolution of the share ratio (2 LP of 3*10^18) redeems all of it
+        # (C04-agent20: such a position "closed out" at a ratio clamped up to 10^-18, i.e. paid more than its share)
+        h.do(("transfer", lp, USER0, USER0 + 2, 1))
+        h.do(("send", lp, USER0 + 2, p, 1, ("hwithdraw",)))          # the whole position: 1 LP
+        h.do(("transfer", lp, USER0, USER0 + 2, 2))
+        h.do(("send", lp, USER0 + 2, p, h.bal(lp, USER0 + 2), ("hwithdraw",)))   # the whole position again
+        h.do(("send", lp, USER0 + 2, p, 1, ("hwithdraw",)))
         h.do(gen_swap(h, rng, p, USER0 + 2, limits=False))
-        for u in (USER0 + 1, USER0):
-            h.do(("send", lp, u, p, 1, ("hwithdraw",)))
+        for u in (USER0 + 1, USER0, USER0 + 2):
+            if h.bal(lp, u) > 0:
+                h.do(("send", lp, u, p, min(h.bal(lp, u), 1 if u != USER0 + 2 else 2), ("hwithdraw",)))
     cases.append(h.finish())
     return cases
 
